@@ -55,7 +55,7 @@ SPEC = {
         "Coq 8.16.1 kernel (vm_compute for the witnesses, the non-vacuity examples, the parameter bridge and the in-Coq evaluation of the correspondence cases; no native_compute)",
         "no axioms: every obligation is Closed under the global context",
         "hand-written faithful model coq/C08/Model.v (cache over the validator trie with tombstones, delegation slices as views into a heap of backing arrays with Go's append growth and rlp decode capacity, clamped statistics with wrapping uint64 counters, both journals, revisions, delegator accounts with content-addressed delegation blobs, Copy, Commit+reload; validator objects carry an identity so that an in-place update of the stored object is seen by the journal entries that point at it)",
-        "correspondence harness harness/cmd/c08 (Go, drives the real StateDB of the working tree through the public API) + hook hooks/core/state/zz_verif_c08.go (read-only views) + in-Coq evaluation of the model on the same histories, comparing a hash of the complete projected state after every operation",
+        "correspondence harness harness/cmd/c08 (Go, drives the real StateDB of the working tree through the public API) + hook hooks/core/state/zz_verif_c08.go (read-only views) + one hook file per unexported staking function (hooks/staking/zz_verif_c08_*.go, registry in zz_verif_c08.go; a file that no longer compiles against the tree is left out by props/C08.py and reported as a broken obligation, the rest still runs) + in-Coq evaluation of the model on the same histories, comparing a hash of the complete projected state after every operation",
         "translator 'c08 callers' (go/ast: every call of UpdateValidator in staking/ and core/, its calling convention (copy / in place), how both arguments were obtained, the Validator fields written before the call with Validator methods resolved, and the fields read by StakeEqual and the statistics; fails on a call it cannot classify) pinned in Bridge.v",
         "translator 'c08 params' (stake unit, role->kind table, online flag, CurdFlag values, number of statistics slots) checked against the model in Bridge.v",
         "the finding-class predicates hpre (ProofsSim.v) and their Go twins in the harness",
@@ -79,6 +79,7 @@ SPEC = {
     ],
     "partial": [
         "C08_inv_holds_outside: holds outside the three open finding classes (each refuted inside by a witness) and under the callers' discipline; absence of panics on such histories is not proved",
+        "whole blocks: the exported staking.EndBlock (upgrade check, slashing hook, rewardsToPool, endStakingPeriod = inactivity slashing/recovery + distributeRewards + processWithdrawQueue + processPendingTxs with signed transactions) is run unmodified by the harness (no hook) on committed+reloaded states; oracle-only, not modelled in Coq",
         "the end-of-block code of package staking (teCreate, teUpdate, teDeposit, teWithdraw, teChangeStatus, teDelegationAdd, teDelegationSub, doPenalize/takePenalty, slashingAndRecoveringYouV5, rewardsToPool, distributeRewards, settleValidatorRewards) is NOT modelled in Coq: the harness runs it unmodified (hooks/staking/zz_verif_c08.go) in random handler histories on non-whole amounts with the property oracle (incl. total = own + delegations per record) after every step; C08_component_decomposition_preserved proves the decomposition for the value-level operations under the delta discipline, which these handlers are only TESTED to follow",
         "takePenalty / settlement arithmetic of package staking is not modelled (updates are modelled generically as PartialCopy + field writes + UpdateValidator)",
     ],
